@@ -297,12 +297,17 @@ func checkPipeCase(res *Result, pc *pipeCase, alpha []absLine, rng *rand.Rand, f
 	// a pass-through writer that fills up: the call during which a Write fails says so (an error other
 	// than EOF), whatever else happens at that moment - a caller must not take the stream for conserved
 	nw := 0
-	for i := range pc.Calls {
-		nw += len(minus(pc.Calls[i].Fwd, pc.Calls[i].K1))
+	for _, o := range runStream(newSource(data, nil, 0, nil, false), opts, len(lines)+3) {
+		nw += len(o.Pieces) // the writes the code makes on this stream
 	}
 	if nw > 0 {
-		failAt := rng.Intn(nw)
-		for _, withData := range []bool{false, true} {
+		failAts := []int{rng.Intn(nw), nw - 1} // somewhere, and at the very last write (which may coincide with the end of the stream)
+		for _, withData := range []bool{false, true, false, true} {
+			failAt := failAts[0]
+			failAts = append(failAts[1:], failAts[0])
+			if withData {
+				failAt = nw - 1
+			}
 			src := newSource(data, nil, 0, nil, withData)
 			reached, err, pan := runStreamFailingWriter(src, opts, len(lines)+3, failAt)
 			if pan != "" {
